@@ -20,7 +20,10 @@ RULE = (
     'of THAT interval\'s samples - a rise being the segment (0, initial '
     'level) -> (reference rain depth of its own storm, final level); every '
     'level used is in discrete_zeta and discrete_zeta covers every n with '
-    'min <= n step < max of the stored water levels.  Words are paths of '
+    'min <= n step < max of the stored water levels.  The same oracle is '
+    'evaluated as a state invariant after EVERY sequence of up to 4 (5) '
+    'workflow steps (classify, two grid steps, rise, rise -r, recession; '
+    'repeats and failing steps included) from one loaded dataset.  Words are paths of '
     'the event tree (states = events, transitions = workflow steps).  '
     'Non-trivial = both curves assembled and every row verified.')
 ASSUMPTIONS = [
@@ -32,6 +35,9 @@ ASSUMPTIONS = [
     'rain depth and pairing are taken from the reference classification of '
     'the loaded tables (C02/C03 check them)',
 ]
+SEQ_STEPS = ['classify-A', 'grid-0.5', 'grid-1', 'recession', 'rise',
+             'rise-ref']
+COARSE = ('uniform', 2.0, 3600, 4.0)
 CONFIGS = [
     ('uniform', 2.0, 3600, 1.0), ('uniform', 0.5, 1800, 0.5),
     ('convex', 2.0, 1200, 0.3), ('concave', 0.5, 3600, 2.5),
@@ -43,9 +49,12 @@ A0 = 16
 
 def BOUND(tier):
     return {
-        'quick': 'words (S D)^2 x 4 perturbations on 6 configurations',
+        'quick': 'words (S D)^2 x 4 perturbations on 6 configurations; '
+                 '(S D)^3 on a coarse grid; all step sequences up to length '
+                 '4 over 6 workflow steps',
         'thorough': 'words (S D)^m, m<=3, x 4 perturbations on 6 '
-                    'configurations',
+                    'configurations; (S D)^3 on a coarse grid; all step '
+                    'sequences up to length 5',
     }[tier]
 
 
@@ -59,14 +68,106 @@ def word_space(pairs, config):
                  % ((pairs,) + tuple(config)), size * 4, decode)
 
 
+def coarse_space(pairs):
+    """Truth-consistent words on a grid coarser than most rises, so that
+    some paired rises cross no level at all while later ones do"""
+    size, decode_word = events.word_space_events(pairs)
+
+    def decode(i):
+        return {'config': list(COARSE), 'perturb': 'none',
+                'word': decode_word(i)}
+    return Space('workflow/(S D)^%d/coarse grid %s Sy=%g dt=%d step=%g'
+                 % ((pairs,) + COARSE), size, decode)
+
+
+def sequence_space(depth):
+    """Every sequence of up to `depth` workflow steps (repeats allowed, steps
+    that fail are simply failed attempts) from the C20 dataset: the
+    traceability oracle is an invariant of every reachable database state"""
+    n = len(SEQ_STEPS)
+    sizes = [n ** k for k in range(1, depth + 1)]
+
+    def decode(i):
+        k = 1
+        for size in sizes:
+            if i < size:
+                break
+            i -= size
+            k += 1
+        seq = []
+        for _ in range(k):
+            seq.append(SEQ_STEPS[i % n])
+            i //= n
+        return {'kind': 'sequence', 'steps': seq[::-1]}
+    return Space('step sequences up to length %d over %r' % (depth,
+                                                             SEQ_STEPS),
+                 sum(sizes), decode)
+
+
 def spaces(tier):
     out = []
     for config in CONFIGS:
         out.append(word_space(2, config))
+    out.append(coarse_space(3))
+    out.append(sequence_space(4 if tier == 'quick' else 5))
     if tier == 'thorough':
         for config in CONFIGS:
             out.append(word_space(3, config))
     return out
+
+
+_SEQ_MEMO = {}
+
+
+def state_after(steps):
+    """Bytes of the database after running `steps` (failed ones included)
+    from the loaded C20 dataset; memoised per prefix"""
+    from mc.checks import c20
+    steps = tuple(steps)
+    if steps in _SEQ_MEMO:
+        return _SEQ_MEMO[steps]
+    if not steps:
+        blob = c20.initial_state()[1]
+    else:
+        blob = state_after(steps[:-1])
+        path = c20.materialise(blob)
+        try:
+            cs.run_main(c20.argv_of(steps[-1], path))
+            with open(path, 'rb') as f:
+                blob = f.read()
+        finally:
+            c20.cleanup(path)
+    if len(_SEQ_MEMO) > 4000:
+        _SEQ_MEMO.clear()
+    _SEQ_MEMO[steps] = blob
+    return blob
+
+
+def run_sequence(case):
+    import sqlite3
+    blob = state_after(case['steps'])
+    connection = sqlite3.connect(':memory:')
+    connection.deserialize(blob)
+    try:
+        row = connection.execute(
+            'SELECT storm_rain_threshold_mm_h, rising_jump_threshold_mm_h '
+            'FROM thresholds').fetchone()
+        grid = connection.execute('SELECT count(*) FROM zeta_grid'
+                                  ).fetchone()[0]
+        if row is None or not grid:
+            return Result(nontrivial=False, outcome='no-curves-possible')
+        viol, info = check_tables(connection, row[0], row[1])
+    finally:
+        connection.close()
+    viol = [(sig, 'after the steps %r: %s' % (case['steps'], msg))
+            for sig, msg in viol]
+    has = info['rise_rows'] > 0 or info['recession_rows'] > 0
+    return Result(viol=viol, nontrivial=has,
+                  outcome=repr(sorted(info.items())),
+                  states=len(case['steps']) + 1,
+                  transitions=len(case['steps']),
+                  counters={'sequences_ending_in_a_state_with_curves':
+                            int(has)}, obs=info)
 
 
 def perturb(ds, how):
@@ -217,6 +318,8 @@ def match_rows(rows, x, y, step, absolute_base):
 
 
 def run_case(case):
+    if case.get('kind') == 'sequence':
+        return run_sequence(case)
     shape, sy, dt, step = case['config']
     word = [tuple(ev) for ev in case['word']]
     ds = events.build(word, shape, sy, dt, A0)
